@@ -35,6 +35,9 @@ var c13Alpha = []rune{
 	'+', '0', '9', 'D', 'x', '你', ' ',
 }
 
+// letters of the escape names (part 1c: every backtick text of <= 5 of them)
+var c13Esc = []rune{'C', 'R', 'L', 'F', 'T', 'A', 'B', 'S', 'P', 'K', 'U', '+', '0', 'D'}
+
 // 16-symbol sub-alphabet for the deepest level.
 var c13Sub = []rune{'“', '”', '「', '》', '`', '\r', '\n', 'C', 'R', 'L', 'F', 'U', '+', '0', 'D', 'x'}
 
@@ -505,7 +508,7 @@ func init() {
 	mc.Register(&mc.Check{
 		ID:    "C13",
 		Level: "exploration",
-		Rule: "E1 exhaustive: every literal body of length <= L over a 31-symbol critical alphabet (10 quote characters, backtick, CR, LF, letters of the escape names, +, hex digits, x, a CJK char, space) inside each of the 5 opening quotes, real lexer vs reference decoder; " +
+		Rule: "E1 exhaustive: every literal body of length <= L over a 31-symbol critical alphabet (10 quote characters, backtick, CR, LF, letters of the escape names, +, hex digits, x, a CJK char, space) inside each of the 5 opening quotes, real lexer vs reference decoder; every sequence of <= 5 (6 thorough) words of a 23-word alphabet (escape names as units, hex words, quotes, line breaks); every backtick text of <= 5 letters over the 14 letters of the escape names (so every near miss of an escape name, e.g. `TABK`, `CRL`, `U+`); " +
 			"plus round trip text->canonical literal->lexer for every text <= L (3 encoders x 5 quotes) and Unicode scalar boundaries. Enumeration is injective (odometer), so every case is distinct; a case is non-trivial if it contains a backtick, a quote character or a line break (i.e. exercises more than verbatim copying).",
 		Assumptions: []string{
 			"reference decoder written from manual chapters 1 and 6; where three readings of 'other backtick text is kept literally' disagree, only 'no crash and the value is one of the readings' is required",
@@ -656,6 +659,54 @@ func c13Run(c *mc.Ctx) {
 		}
 		base += total * 5
 		c.Bound(fmt.Sprintf("word_sequences_len_%d_alphabet_%d", n, len(c13Words)), "complete")
+	}
+	// ---- part 1c: every backtick text of <= 5 letters of the escape names
+	{
+		total := int64(0)
+		for n := 0; n <= 5; n++ {
+			total += pow64(len(c13Esc), n)
+		}
+		lbase := base
+		build := func(k int64) []rune {
+			oi := int(k % 5)
+			k /= 5
+			n := 0
+			for k >= pow64(len(c13Esc), n) {
+				k -= pow64(len(c13Esc), n)
+				n++
+			}
+			s := []rune{c13Open[oi], '`'}
+			s = append(s, c13Unrank(c13Esc, n, k, nil)...)
+			return append(s, '`', c13Close[c13Open[oi]])
+		}
+		c.Describe = func(idx int64) json.RawMessage {
+			s := build(idx - lbase)
+			return mc.J(c13Case{Mode: "lex", Source: string(s), Runes: toInts(s)})
+		}
+		for k := int64(0); k < total*5; k++ {
+			idx := base + k
+			if !c.Mine(idx) {
+				continue
+			}
+			if k&0xFFFF == 0 && c.Expired() {
+				c.Note("deadline hit in backtick texts")
+				return
+			}
+			c.CaseIdx(idx)
+			src = build(k)
+			as, f := c13CheckLex(src)
+			c.Eval(true)
+			c.Stat("backtick_text_cases", 1)
+			if as {
+				asserted++
+			}
+			if f != nil {
+				f.Sig = c13Sig(f)
+				c.Fail(*f)
+			}
+		}
+		base += total * 5
+		c.Bound(fmt.Sprintf("backtick_texts_len_le_5_alphabet_%d", len(c13Esc)), "complete")
 	}
 	c.Stat("lex_cases_with_unique_reading_asserted", asserted)
 
